@@ -619,6 +619,50 @@ func detMemo(f *ssa.Function) (bool, string) {
 	if !stored {
 		return false, "memo is consulted but never filled"
 	}
+	// filled whenever the value was computed: no condition on the store beyond those of the computation itself
+	cond := ""
+	core.InstrsOf(f, func(in ssa.Instruction) {
+		mu, ok := in.(*ssa.MapUpdate)
+		if !ok || core.Canon(mu.Map) != core.Canon(memo) || mu.Key != ssa.Value(key) {
+			return
+		}
+		base := map[string]bool{}
+		var walk func(v ssa.Value, d int)
+		walk = func(v ssa.Value, d int) {
+			if d > 4 {
+				return
+			}
+			for _, o := range core.Origins(v) {
+				if c, ok := o.(*ssa.Call); ok && c.Parent() == f {
+					if _, isB := c.Call.Value.(*ssa.Builtin); isB {
+						continue
+					}
+					for _, g := range mandatoryGuards(f, c.Block()) {
+						base[g] = true
+					}
+					if core.StaticCallee(&c.Call) != nil && !c.Call.IsInvoke() {
+						// a pure wrapper around the computed text (concatenation, hex encoding): look at its inputs too
+						for _, a := range c.Call.Args {
+							walk(a, d+1)
+						}
+					}
+				}
+				if b, ok := o.(*ssa.BinOp); ok {
+					walk(b.X, d+1)
+					walk(b.Y, d+1)
+				}
+			}
+		}
+		walk(mu.Value, 0)
+		for _, g := range mandatoryGuards(f, mu.Block()) {
+			if !base[g] {
+				cond = g
+			}
+		}
+	})
+	if cond != "" {
+		return false, "the memo is filled only if " + cond + ": other renderings are recomputed for every operand that mentions the value"
+	}
 	return true, "result memoised per argument (consulted at entry, filled on the expanding path)"
 }
 
@@ -1068,6 +1112,40 @@ func c17Caps(r *core.Run) {
 		}
 	}
 	r.Floor("C17.CAPS", "constructions of the structural matcher outside pkg/diff", nZ, 1)
+	// no crash on a compilable input: arbitrary-precision division in the symbolic evaluator only by a divisor that
+	// was tested to be non-zero (the operands come from the analysed program's constants)
+	nDiv := 0
+	for _, rel := range []string{"pkg/analysis/loop", "pkg/analysis/ir", "pkg/analysis/topology", "pkg/diff"} {
+		for _, fn := range p.FuncsIn(rel) {
+			core.InstrsOf(fn, func(in ssa.Instruction) {
+				c := core.CallOf(in)
+				if c == nil {
+					return
+				}
+				switch core.CalleeName(c) {
+				case "(*math/big.Int).Quo", "(*math/big.Int).Rem", "(*math/big.Int).Div", "(*math/big.Int).Mod", "(*math/big.Int).QuoRem", "(*math/big.Int).DivMod":
+				default:
+					return
+				}
+				nDiv++
+				div := c.Args[2]
+				ok1, n1, path := core.MustPass(fn, in.Block(), func(cond ssa.Value) (bool, bool) {
+					op, x, y, neg, ok := core.Compare(cond)
+					if !ok || neg || (op != token.EQL && op != token.NEQ) {
+						return false, false
+					}
+					sc, isCall := callTo(x, "(*math/big.Int).Sign")
+					z, isZ := core.ConstInt(y)
+					if !isCall || !isZ || z != 0 || sc.Call.Args[0] != div {
+						return false, false
+					}
+					return true, op == token.NEQ
+				})
+				r.Check(ok1 && n1 > 0, "C17.CAPS", core.FuncName(fn)+"#division-by-tested-divisor("+strings.TrimPrefix(core.CalleeName(c), "(*math/big.Int).")+")", in.Pos(), "big-integer division only after the divisor's Sign() was tested against 0", "big-integer division without a zero test of the divisor ("+core.FmtPath(path)+"): a loop bound such as x % (a-a) panics inside the analysis of a compilable file")
+			})
+		}
+	}
+	r.Floor("C17.CAPS", "big-integer divisions in the symbolic evaluator", nDiv, 1)
 
 	// string-literal byte caps in the topology extractor
 	nS := 0
